@@ -23,8 +23,11 @@ _OB_ASSUME = [
 PROPS = {
     "C11": dict(
         suite="onboarding",
-        modules=["CantoVerif.Props.C11"],
+        modules=["CantoVerif.Props.C11", "CantoVerif.Props.C11Monitors"],
         theorems=[
+            # monitor links (Props/C11Monitors.lean): every executable predicate of Spec/Onboarding.lean is proved of the model's transitions
+            "CV.Onboarding.guards_monitor", "CV.Onboarding.no_partial_swap_monitor", "CV.Onboarding.swap_iff_below_threshold_monitor",
+            "CV.Onboarding.no_partial_convert_monitor", "CV.Onboarding.monitors_modelTr", "CV.Onboarding.modelTr_post", "CV.Onboarding.exPacketWorld",
             "CV.Onboarding.conservation", "CV.Onboarding.left_is_rest", "CV.Onboarding.conservation_ledger",
             "CV.Onboarding.prior_untouched", "CV.Onboarding.swap_iff_below_threshold", "CV.Onboarding.swap_credits_threshold",
             "CV.Onboarding.no_partial_swap", "CV.Onboarding.swapLegs_no_partial", "CV.Onboarding.no_swap_pools_untouched",
